@@ -416,13 +416,18 @@ class StmtExec(Exec):
 
     # ---------------------------------------------------------------- loops
     def loop_spec(self, s):
+        """sidecar invariant for a loop: by ordinal while the function has as many loops as the sidecar knows;
+        after loops were added/removed, by the recorded text of the iterated expression / test (else: undecided)"""
         k = getattr(s, "_loop_no", None)
-        spec = (self.ctx.contract.loops or {}).get(k)
-        if spec is None:
-            raise Unsupported("loop %s at line %d has no invariant in the sidecar" % (k, s.lineno))
+        specs = self.ctx.contract.loops or {}
         src = ast.unparse(s.iter) if isinstance(s, ast.For) else ast.unparse(s.test)
-        if spec.get("match") is not None and spec["match"] != src:
-            raise Unsupported("loop %d: invariant detached (sidecar expects `%s`, source has `%s`)" % (k, spec["match"], src))
+        if getattr(self.ctx, "n_loops", len(specs)) == len(specs):
+            spec = specs.get(k)
+        else:
+            cands = [v for v in specs.values() if v.get("match") == src]
+            spec = cands[0] if len(cands) == 1 else None
+        if spec is None:
+            raise Unsupported("loop %s at line %d (`%s`) has no invariant in the sidecar" % (k, s.lineno, src))
         return k, spec
 
     def havoc(self, body, st, k, spec):
